@@ -33,7 +33,7 @@ type kase struct {
 var stateNames = []string{"absent", "empty", "flat", "nested", "4k", "20k", "40k"}
 var extraNames = []string{"none", "one", "five", "duplicates", "fetch-like", "preference-like", "auth-like-last", "odd-names", "preference-entry-first"}
 
-var clientKinds = []string{"dial", "handbuilt", "forged-state", "forged-state+skip", "swapped-state", "swapped-state+skip", "unsigned-state", "unsigned-state+skip"}
+var clientKinds = []string{"dial", "handbuilt", "handbuilt-preference-first", "handbuilt-preference-between-chunks", "forged-state", "forged-state+skip", "swapped-state", "swapped-state+skip", "unsigned-state", "unsigned-state+skip"}
 
 func stateOf(n string) *structpb.Struct {
 	switch n {
@@ -155,6 +155,8 @@ func (w *world) one(k kase, r *engine.Report) (string, string) {
 				req.ClientState, _ = proto.Marshal(st)
 				req.ClientStateSignature = w.node.K.Sign(req.ClientState)
 				switch strings.TrimSuffix(k.Client, "+skip") {
+				case "handbuilt-preference-first", "handbuilt-preference-between-chunks":
+					// honest: only the position of the preference entry differs
 				case "forged-state":
 					// signed by a key that is not the node's
 					req.ClientStateSignature = harness.NewCertKey("forger", w.seed).Sign(req.ClientState)
@@ -171,6 +173,12 @@ func (w *world) one(k kase, r *engine.Report) (string, string) {
 			}
 			b := w.node.Creds.CertificateBundles[0]
 			c := &harness.AuthClient{Request: req, Chain: [][]byte{b.CertificateDer, b.CaCertificateDer}, Key: w.node.K.Priv, Preference: harness.CaKeyId(b.CaCertificateDer), ExtraProtos: extras}
+			switch k.Client {
+			case "handbuilt-preference-first":
+				c.PrefPos = 1
+			case "handbuilt-preference-between-chunks":
+				c.PrefPos = 2
+			}
 			offered = c.NextProtos()
 			conn, e := c.Connect(addr)
 			dialErr = e
@@ -257,7 +265,9 @@ func (w *world) one(k kase, r *engine.Report) (string, string) {
 }
 
 // unverifiable reports the client kinds whose state signature cannot verify.
-func unverifiable(client string) bool { return client != "dial" && client != "handbuilt" }
+func unverifiable(client string) bool {
+	return client != "dial" && !strings.HasPrefix(client, "handbuilt")
+}
 
 func firstDiff(a, b []string) string {
 	for i := 0; i < len(a) && i < len(b); i++ {
@@ -336,7 +346,7 @@ func init() {
 	engine.Register(&engine.CheckDef{
 		ID:    "C16",
 		Level: "exploration",
-		Rule: "client state {absent, empty, flat, nested 3 levels, 4 KiB, 20 KiB, 40 KiB} x extra ALPN lists {none, one, five, duplicates, fetch-prefix-like, preference-like, auth-like, odd names incl. the split listener's reserved ones and a 255-byte name} through the real Dial and through a hand-built client whose offered list is known exactly, plus the same with a state signature that cannot verify {signed by another key, the node's signature over a different state, absent} each with and without the request's skip_verification flag set by the client; every case against a listener without options and against one whose own option list carries a state and an extra-protocol option; oracle evaluated only on authenticated connections; " +
+		Rule: "client state {absent, empty, flat, nested 3 levels, 4 KiB, 20 KiB, 40 KiB} x extra ALPN lists {none, one, five, duplicates, fetch-prefix-like, preference-like, auth-like, odd names incl. the split listener's reserved ones and a 255-byte name} through the real Dial and through a hand-built client whose offered list is known exactly (certificate-preference entry last, first, and between the request's chunks), plus the same with a state signature that cannot verify {signed by another key, the node's signature over a different state, absent} each with and without the request's skip_verification flag set by the client; every case against a listener without options and against one whose own option list carries a state and an extra-protocol option; oracle evaluated only on authenticated connections; " +
 			"distinct_nontrivial counts cases (distinct by construction) whose connection authenticated (or, for forged state, was judged)",
 		Assumptions: []string{"an empty client state and an absent one are treated as the same value (both carry no fields)", "states too large for a ClientHello do not authenticate and are counted, not judged"},
 		Shards:      func(c *engine.Ctx) int { return 8 },
